@@ -208,6 +208,9 @@ func runModelMode(sc *Scn, aware bool) *Model {
 	}
 	sort.Strings(parts)
 	mod.Store = strings.Join(parts, " ")
+	if sc.NilStore {
+		mod.Store = "" // nothing can have been written anywhere
+	}
 	return mod
 }
 
@@ -277,6 +280,9 @@ func (m *mstate) runFlow(n *NodeSpec) (string, string) {
 func (m *mstate) storeTag() string {
 	if m.scratch > 0 {
 		return "S-other"
+	}
+	if m.sc.NilStore {
+		return "S-nil"
 	}
 	return "S0"
 }
